@@ -178,17 +178,19 @@ def rule_shield(ctx):
         elif in_with:
             why = 'the shield is applied inside a `with` block: the lock would be released on cancellation while the job still runs'
         else:
-            body = [s for s in inner.node.body if not (isinstance(s, ast.Expr) and isinstance(s.value, ast.Constant))]
-            if len(body) == 1 and isinstance(body[0], ast.AsyncWith) and len(body[0].items) == 1 and \
-                    ctx.res.canon(body[0].items[0].context_expr, inner) == 'self.state_lock':
-                aw = [n for n in walk_own(body[0]) if isinstance(n, ast.Await) and norm(n.value) == coro]
+            locks = [s for s in inner.node.body if isinstance(s, ast.AsyncWith) and len(s.items) == 1 and
+                     ctx.res.canon(s.items[0].context_expr, inner) == 'self.state_lock']
+            all_awaits = [n for n in inner.own_nodes() if isinstance(n, (ast.Await, ast.AsyncFor, ast.AsyncWith)) and n not in locks]
+            if len(locks) == 1:
+                aw = [n for n in walk_own(locks[0]) if isinstance(n, ast.Await) and norm(n.value) == coro]
                 outside = [n for n in f.own_nodes() if isinstance(n, ast.Await) and norm(n.value) == coro]
-                if len(aw) == 1 and not outside:
+                stray = [n for n in all_awaits if not q.in_body(n, locks[0].body)]
+                if len(aw) == 1 and not outside and not stray:
                     ok = True
                 else:
-                    why = 'the coroutine is not awaited exactly once, inside the locked block'
+                    why = 'the coroutine is not awaited exactly once, inside the locked block (or something else is awaited outside it)'
             else:
-                why = 'the nested coroutine does not consist of `async with self.state_lock:`'
+                why = 'the nested coroutine does not take `async with self.state_lock:` around the job'
     elif not shields:
         why = 'no asyncio.shield call: a cancellation aborts the job and the lock protocol'
     ctx.check(ok, 'C06.SHIELD', ctx.key(f, None, 'shield(lock(coro))'),
